@@ -79,9 +79,11 @@ CLAIMS = {
          "T0SZ/T1SZ, EPD0/1, start level, up to three levels with hierarchical APTable/XNTable/PXNTable/NSTable, blocks and pages, access "
          "flag, AP, MAIR memory type, SH) incl. termination of the lookup loop; for every register setting, address, privilege, direction. "
          "Both units a second time for configurations with the Virtualization Extensions present and stage 2 inactive (Secure state or HCR.VM == 0; "
-         "HCR.TGE / HCR.DC corners as UNPREDICTABLE, alignment faults of Device memory reported). Hyp mode (HTCR/HTTBR walk) and the second stage "
-         "(VTCR/VTTBR walk, stage 1 walks through stage 2, check_permission_s2, combine_s1s2_desc, s2_attr_decode) have NO functional "
-         "specification: three safety units prove for them no host error, termination of every walk, a 40-bit physical address, "
+         "HCR.TGE / HCR.DC corners as UNPREDICTABLE, alignment faults of Device memory reported; the Long-descriptor one of these in the thorough tier only). "
+         "(3) the Hyp-mode stage-1 walk (HTCR.T0SZ, HTTBR, HSCTLR.EE, HMAIR, Non-secure lookup, the Hyp-regime UNPREDICTABLE descriptor settings) "
+         "functionally like (2). The second stage (VTCR/VTTBR walk, stage 1 walks through stage 2, check_permission_s2, combine_s1s2_desc, "
+         "s2_attr_decode) and Hyp mode with HSCTLR.M == 0 have NO functional specification: safety units (Hyp mode; stage 2 with the stage 1 MMU off; "
+         "stage 2 with it on in the thorough tier) prove for them no host error, termination of every walk, a 40-bit physical address, "
          "'a success changes no state, a fault only the fault-reporting registers', no memory write and ownership of the result - the "
          "property text itself speaks of stage 1 only. Also outside: SCTLR.HA; Long-descriptor fault *reporting* stops at a "
          "mock hook (NotImplementedError), so there only 'a fault is raised exactly when specified' is proved; SCTLR.TRE == 0 likewise.",
